@@ -1984,3 +1984,80 @@ func behindEmptyTableTest(fn *ssa.Function, in ssa.Instruction, field string, af
 	}
 	return false
 }
+
+// reachWithFlags is the set of blocks reachable from start (start included) when boolean flags are followed: a
+// phi that receives a constant on the edge taken is known from there on, and a branch on a known flag (or its
+// negation) is followed on the matching side only.  This is what makes `ok := f(); if !ok { return }` with f
+// inlined — the arm sets a flag, a join, then a test of the flag — as exact as the early return it stands for.
+func reachWithFlags(start *ssa.BasicBlock) map[*ssa.BasicBlock]bool {
+	seen := map[*ssa.BasicBlock]bool{}
+	visited := map[string]bool{}
+	var walk func(b *ssa.BasicBlock, env map[ssa.Value]bool)
+	walk = func(b *ssa.BasicBlock, env map[ssa.Value]bool) {
+		var ks []string
+		for k, v := range env {
+			ks = append(ks, fmt.Sprintf("%s=%v", k.Name(), v))
+		}
+		sort.Strings(ks)
+		sig := fmt.Sprintf("%d|%s", b.Index, strings.Join(ks, ","))
+		if visited[sig] || len(visited) > 4000 {
+			return
+		}
+		visited[sig] = true
+		seen[b] = true
+		val := func(v ssa.Value) (bool, bool) {
+			neg := false
+			for {
+				if u, ok := v.(*ssa.UnOp); ok && u.Op == token.NOT {
+					v, neg = u.X, !neg
+					continue
+				}
+				break
+			}
+			if k, ok := v.(*ssa.Const); ok && k.Value != nil && k.Value.Kind() == constant.Bool {
+				return constant.BoolVal(k.Value) != neg, true
+			}
+			if x, ok := env[v]; ok {
+				return x != neg, true
+			}
+			return false, false
+		}
+		succs := b.Succs
+		if iff, ok := b.Instrs[len(b.Instrs)-1].(*ssa.If); ok && len(b.Succs) == 2 {
+			if x, known := val(iff.Cond); known {
+				if x {
+					succs = b.Succs[:1]
+				} else {
+					succs = b.Succs[1:]
+				}
+			}
+		}
+		for _, s := range succs {
+			e2 := map[ssa.Value]bool{}
+			for k, v := range env {
+				e2[k] = v
+			}
+			idx := -1
+			for i, p := range s.Preds {
+				if p == b {
+					idx = i
+				}
+			}
+			for _, in := range s.Instrs {
+				phi, ok := in.(*ssa.Phi)
+				if !ok {
+					break
+				}
+				delete(e2, phi)
+				if idx >= 0 {
+					if x, known := val(phi.Edges[idx]); known {
+						e2[phi] = x
+					}
+				}
+			}
+			walk(s, e2)
+		}
+	}
+	walk(start, map[ssa.Value]bool{})
+	return seen
+}
